@@ -56,7 +56,10 @@ pub fn req_strategy(big: bool) -> BoxedStrategy<ReqGen> {
         2 => Just(String::new()),
         2 => Just("/".to_string()),
         4 => "/[a-zA-Z0-9._~%-]{0,12}(/[a-zA-Z0-9._~-]{0,8}){0,3}(\\?[a-z0-9=&%:/.-]{0,20})?",
-        1 => "\\?[a-z0-9=&]{0,12}",
+        // the full pchar / query alphabets of RFC 3986 (sub-delims, ':' and '@' included)
+        3 => "/[a-zA-Z0-9._~!$&'()*+,;=:@-]{0,12}(/[a-zA-Z0-9._~!$&'()*+,;=:@-]{0,8}){0,2}(\\?[a-zA-Z0-9._~!$&'()*+,;=:@/?-]{0,24})?",
+        1 => Just("/users/@me?reply_to=bob@203.0.113.9:9000".to_string()),
+        1 => "\\?[a-z0-9=&@:]{0,12}",
         1 => Just("/redirect?u=http://other.example/x:y".to_string()),
     ];
     let hname = prop_oneof![
